@@ -4,7 +4,7 @@
    one apply() per modification is decided on the implementation by harness/c09.py (partial, see the manifest). *)
 From Coq Require Import ZArith List Bool Arith.
 From GR Require Import Base.Result Adt.RefCache Adt.RefCacheProofs Adt.RetCache Adt.RetCacheProofs
-     IR.State IR.Modify IR.Edit IR.Funcs IR.CacheInv.
+     IR.State IR.Modify IR.Edit IR.Funcs IR.CacheInv IR.FindingsGen.
 Import ListNotations.
 Open Scope Z_scope.
 
@@ -68,3 +68,23 @@ Theorem C09_function_of_a_block_through_the_cache :
   forall work s s', apply_all s work = Ok s' -> FInv s -> patches_fresh s (work_patches work) ->
     forall b f, aget b (fbb s') = Some f <-> In b (flist (fblocks s') f).
 Proof. intros work s s' E H Hp b f. apply (fi_part s' (FInv_apply_all _ _ _ E H Hp)). Qed.
+
+(* ===== the recorded finding =====
+   Inside a rewrite the caches are NOT transparent to a consumer that reads Symbol.referent itself: after the first modification of the
+   corpus case (block 0 deleted, its labels handed to block 1 through the reference cache) label 0 directly holds no referent, while
+   the cache -- and the module once the context is left (C09_leaving_the_context_changes_no_referent) -- say block 1.  The assembler
+   looks names up with Symbol.referent, so the next patch of the same apply(), `jne L0`, is refused (UnsupportedAssemblyError), while
+   the same modifications applied one apply() at a time succeed.  Known finding C09-assembler-reads-symbol-referent-directly;
+   witness: IR/FindingsGen.v, module J1. *)
+Theorem C09_direct_referent_inside_a_rewrite_refuted :
+  exists s', J1.after_first = Some s' /\ Inv (rcache s') /\
+    fst (sym_get 0%nat (stab (rcache s'))) = None /\ abs (rcache s') 0%nat = (Some 1%nat, false) /\
+    fst (sym_get 0%nat (stab (RefCache.apply (rcache s')))) = Some 1%nat.
+Proof.
+  eexists. split; [vm_compute; reflexivity|]. split.
+  - refine (proj1 (C09_reference_cache_invariant_at_every_step J1.W_work J1.W_state _ _ _ _)).
+    + vm_compute. reflexivity.
+    + apply Inv_init. vm_compute. repeat constructor; cbn; intuition discriminate.
+    + vm_compute. repeat constructor; cbn; intuition discriminate.
+  - repeat split; vm_compute; reflexivity.
+Qed.
